@@ -35,6 +35,17 @@ DEFAULT_PROFILE = dict(
 )
 
 
+def logedge_profile(**kw):
+    """Problems whose start lies at/near the upper (or lower) bound of a wide log-scaled variable: after the 0.1% repair the
+    start is less than half a search-mesh step from the transformed bound, so gridisation can round it past the bound."""
+    p = dict(DEFAULT_PROFILE)
+    p.update(maxD=2, coord_classes=("log", "log", "log", "linear"), x0_classes=("near2", "near2", "on_ub", "near", "on_lb"),
+             p_x0_none=0.0, p_plausible_omitted=0.0, p_cons=0.0, extra_budget=(2, 25), noise_modes=("none", "none", "declared"),
+             max_iter_choices=(2, None), tol_mesh_choices=(None,), extra_options=False, p_subdesign=0.0)
+    p.update(kw)
+    return p
+
+
 def profile(**kw):
     p = dict(DEFAULT_PROFILE)
     p.update(kw)
